@@ -76,6 +76,7 @@ MonInit(cfg) ==
     cp       |-> [s \in 1..NS(cfg) |-> [ok |-> 0]],
     lastPart |-> [s \in 1..NS(cfg) |-> -1],
     maxTd    |-> 0,
+    segsz    |-> <<>>,                          \* payload bytes per (stream, segment) seen so far (recent)
     werr     |-> FALSE,                         \* a Write returned an error: the trace has ended
     dbg      |-> <<>>,
     f        |-> [c01 |-> TRUE, c02 |-> TRUE, c03 |-> TRUE, c04 |-> TRUE, c05 |-> TRUE, c18 |-> TRUE] ]
@@ -140,7 +141,7 @@ SumDur(ent) == IF ent = <<>> THEN 0 ELSE Head(ent).dur + SumDur(Tail(ent))
 (* input side: start point and expected segment boundaries (C02 "exactly when due") *)
 
 \* one accepted unit of the leading track
-LeadOffer(cfg, m, w) ==
+LeadOffer(cfg, m, w, firstOfWrite) ==
   LET chg  == (w.ps # 0 /\ w.ps # m.gen)
       gen2 == IF w.ps # 0 THEN w.ps ELSE m.gen
   IN IF m.startId = 0
@@ -155,7 +156,8 @@ LeadOffer(cfg, m, w) ==
               due  == /\ w.ra = 1
                       /\ \/ pc /\ cfg.tracks[cfg.lead].k = "v"
                          \/ /\ w.dts - m.segStart >= cfg.segMin
-                            /\ (AudioOnlyTS(cfg) => m.segCnt >= MinAU(cfg))
+                            \* audio-only MPEG-TS: only a Write call can start a segment, after MinAU calls
+                            /\ (AudioOnlyTS(cfg) => (firstOfWrite /\ m.segCnt >= MinAU(cfg)))
               e    == [id |-> w.id, dts |-> w.dts, ntp |-> w.ntp, ra |-> w.ra]
           IN [m EXCEPT !.nlead = m.nlead + 1,
                        !.created = TRUE,
@@ -163,19 +165,19 @@ LeadOffer(cfg, m, w) ==
                        !.pendChg = IF w.ra = 1 THEN FALSE ELSE pc,
                        !.expB = IF due THEN Append(m.expB, e) ELSE m.expB,
                        !.segStart = IF due THEN w.dts ELSE m.segStart,
-                       !.segCnt = IF due THEN 1 ELSE m.segCnt + 1,
+                       !.segCnt = IF due THEN 1 ELSE IF firstOfWrite THEN m.segCnt + 1 ELSE m.segCnt,
                        !.lq = Append(m.lq, [id |-> w.id, dts |-> w.dts, ra |-> w.ra, ntp |-> w.ntp])]
 
-RECURSIVE OfferUnits(_, _, _, _)
-OfferUnits(cfg, m, t, us) ==
+RECURSIVE OfferUnits(_, _, _, _, _)
+OfferUnits(cfg, m, t, us, first) ==
   IF us = <<>> THEN m
   ELSE LET w  == Head(us)
            m1 == [m EXCEPT !.pend[t] = Append(m.pend[t], w),
                            !.firstAfter[t] = IF m.created /\ m.firstAfter[t] = 0 /\ ~IsLead(cfg, t)
                                                 /\ (cfg.variant = "mpegts" \/ w.dts + Off(cfg, t) >= 0)
                                              THEN w.id ELSE m.firstAfter[t]]
-           m2 == IF IsLead(cfg, t) THEN LeadOffer(cfg, m1, w) ELSE m1
-       IN OfferUnits(cfg, m2, t, Tail(us))
+           m2 == IF IsLead(cfg, t) THEN LeadOffer(cfg, m1, w, first) ELSE m1
+       IN OfferUnits(cfg, m2, t, Tail(us), FALSE)
 
 -----------------------------------------------------------------------------
 (* observed boundaries: first leading unit of each listed fragment of the leading stream *)
@@ -278,7 +280,6 @@ C04Pair(cfg, p, q) ==      \* p earlier, q later playlist of one stream (both se
   /\ \A i \in 1..Len(p.ent) :                                              \* SameMSNSameEntry + tail append
         LET j == p.msn + i - q.msn IN
         (j >= 1) => (j <= Len(q.ent) /\ EntKey(q.ent[j]) = EntKey(p.ent[i]))
-  /\ q.td >= p.td                                                          \* TargetMonotone (C03)
 
 C04Agree(cfg, a, b) ==     \* two streams of one muxer at the same instant
   /\ a.msn = b.msn /\ Len(a.ent) = Len(b.ent)
@@ -319,6 +320,39 @@ DirOK(cfg, cps, dir) ==
      /\ (cps[d.s].ok = 1) =>
            (d.id \in ListedSegIds(cps[d.s]) \/ d.id = cps[d.s].msn + Len(cps[d.s].ent))
 
+\* C18 ResolvableLE: what left the window stops resolving
+C18Gone(cfg, cps, probes) ==
+  \A i \in 1..Len(probes) :
+    LET pr == probes[i]
+        pl == cps[pr.s]
+    IN (pl.ok = 1) =>
+         /\ (pr.k = "seg" /\ pr.id \notin ListedSegIds(pl)) => pr.cls # "media"
+         /\ (pr.k = "part" /\ pr.id \notin PartIdsOf(pl) /\ pr.seg >= 0 /\ pr.seg < pl.msn) => pr.cls # "media"
+         /\ (pr.k = "fake") => pr.cls # "media"
+
+\* C18 PayloadLEMax: media payload per published segment of each stream (sizes as the muxer counts them come
+\* with the written units; the units of a fragment are known from decoding it)
+SizeOfUnit(p, id) ==
+  LET ix == {i \in 1..Len(p) : p[i].id = id}
+  IN IF ix = {} THEN 0 ELSE p[CHOOSE i \in ix : TRUE].size
+
+EmitSize(pend, em) ==
+  SumSeq(CatSeq([j \in 1..Len(em.frags) |->
+     CatSeq([k \in 1..Len(em.frags[j].tr) |->
+        IF em.frags[j].tr[k].t >= 1
+        THEN [n \in 1..Len(em.frags[j].tr[k].u) |-> SizeOfUnit(pend[em.frags[j].tr[k].t], em.frags[j].tr[k].u[n].id)]
+        ELSE <<>>])]))
+
+RECURSIVE AddSizes(_, _, _)
+AddSizes(acc, pend, emits) ==
+  IF emits = <<>> THEN acc
+  ELSE LET em == Head(emits)
+           sz == EmitSize(pend, em)
+           ix == {i \in 1..Len(acc) : acc[i].s = em.s /\ acc[i].seg = em.seg}
+           acc2 == IF ix = {} THEN Append(acc, [s |-> em.s, seg |-> em.seg, size |-> sz])
+                   ELSE LET i == CHOOSE j \in ix : TRUE IN [acc EXCEPT ![i].size = acc[i].size + sz]
+       IN AddSizes(acc2, pend, Tail(emits))
+
 -----------------------------------------------------------------------------
 (* one monitor step *)
 
@@ -337,7 +371,7 @@ MonStep(cfg, m, w) ==
   IF m.werr THEN m
   ELSE IF w.ok # 1 THEN [m EXCEPT !.werr = TRUE]
   ELSE
-  LET m1  == OfferUnits(cfg, m, w.t, w.u)
+  LET m1  == OfferUnits(cfg, m, w.t, w.u, TRUE)
       r   == [t \in 1..NT(cfg) |-> C01Track(cfg, m1, t, w.emit)]
       m2  == [m1 EXCEPT !.pend = [t \in 1..NT(cfg) |-> r[t].p],
                         !.begun = [t \in 1..NT(cfg) |-> r[t].begun],
@@ -352,7 +386,9 @@ MonStep(cfg, m, w) ==
              /\ \A t \in 1..NT(cfg) : r[t].ok
              /\ complete
       c02 == served(cfg.leadStream) => C02Leading(cfg, m2, lp)
-      c03 == \A s \in 1..NS(cfg) : served(s) => C03Playlist(cfg, m2, cps[s], s = cfg.leadStream)
+      c03 == \A s \in 1..NS(cfg) : served(s) =>
+                /\ C03Playlist(cfg, m2, cps[s], s = cfg.leadStream)
+                /\ (m.cp[s].ok = 1 => cps[s].td >= m.cp[s].td)          \* TargetMonotone
       c04 == /\ \A s \in 1..NS(cfg) :
                    /\ cps[s].ok \in {0, 1}                  \* never an error status / unreadable playlist
                    /\ (m.cp[s].ok = 1 => served(s))          \* once served, always served
@@ -364,9 +400,13 @@ MonStep(cfg, m, w) ==
                    (ids # {} /\ m.lastPart[s] >= 0) =>
                        \A p \in ids : p <= m.lastPart[s] + 1 \/ (p - 1) \in ids
       c05 == HasField(w, "probe") => C05Probes(cfg, cps, w.probe)
+      sz  == AddSizes(m.segsz, m1.pend, w.emit)
       c18 == /\ HasField(w, "dir") => DirOK(cfg, cps, w.dir)
              /\ \A s \in 1..NS(cfg) : served(s) => Len(cps[s].ent) <= cfg.segCount
+             /\ HasField(w, "probe") => C18Gone(cfg, cps, w.probe)
+             /\ \A i \in 1..Len(sz) : sz[i].size <= cfg.maxSize                       \* PayloadLEMax
       m3  == [m2 EXCEPT !.pp = m.cp, !.cp = cps,
+                        !.segsz = IF Len(sz) > 6 * NS(cfg) THEN DropN(sz, Len(sz) - 6 * NS(cfg)) ELSE sz,
                         !.lastPart = [s \in 1..NS(cfg) |->
                             IF served(s) /\ PartIdsOf(cps[s]) # {}
                             THEN Max(m.lastPart[s], CHOOSE x \in PartIdsOf(cps[s]) : \A y \in PartIdsOf(cps[s]) : y <= x)
